@@ -336,3 +336,76 @@ Proof.
     apply (last_wins_in_orig N.eqb) in Hi. apply HB in Hi.
     exists (InAdd o (OByron a)). split; [exact Hi | left; reflexivity].
 Qed.
+
+(* ------------------------------------------------------------------ certificates *)
+Lemma creds_keys_CK ks : creds_keys (map CK ks) = ks.
+Proof. unfold creds_keys. induction ks as [| k t IH]; cbn; [reflexivity | rewrite IH; reflexivity]. Qed.
+
+(* the key hashes the (repaired) builder counts for a certificate are exactly the key credentials of the
+   ledger table, for every certificate kind and every credential / owner list *)
+Lemma cert_table_keys c k :
+  In k (witness_keys_for_cert_gen true c) <-> In k (creds_keys (cert_witness_creds c)).
+Proof.
+  destruct c as [kind cr ks aux]. unfold witness_keys_for_cert_gen, cert_witness_creds. cbn [c_kind c_cred c_keys].
+  destruct (N.eq_dec kind 3) as [-> | N3].
+  { change (3 =? 0) with false. change (3 =? 3) with true. cbn iota.
+    rewrite creds_keys_CK, !in_app_iff. tauto. }
+  destruct kind as [| p]; [vm_compute; tauto |].
+  do 5 (try destruct p as [p | p |]); try congruence;
+    destruct cr as [k0 | s0]; destruct ks as [| g [| d r]]; vm_compute; tauto.
+Qed.
+
+(* the builder asks for a script witness exactly when the ledger table names a script credential *)
+Lemma cert_table_scripts c :
+  cert_has_required_script_witness c = existsb cred_is_script (cert_witness_creds c).
+Proof.
+  destruct c as [kind cr ks aux]. unfold cert_has_required_script_witness, cert_witness_creds. cbn [c_kind c_cred c_keys].
+  destruct (N.eq_dec kind 3) as [-> | N3].
+  { change (3 =? 0) with false. change (3 =? 3) with true. cbn [orb].
+    generalize (cred_key cr ++ ks). intros l. induction l as [| a t IH]; [reflexivity | exact IH]. }
+  destruct kind as [| p]; [reflexivity |].
+  do 5 (try destruct p as [p | p |]); try congruence; destruct cr; destruct ks as [| g [| d r]]; vm_compute; reflexivity.
+Qed.
+
+(* ------------------------------------------------------------------ the union *)
+Definition all_consistent (t : tx_ops) : bool :=
+  consistent_owners (t_inputs t) && consistent_owners (t_collateral t).
+
+Lemma certs_signers_spec st k :
+  In k (certs_required_signers_gen true st) <->
+  In k (flat_map (fun e : cert_op => creds_keys (cert_witness_creds (fst e)) ++ wit_signers (snd e)) st).
+Proof.
+  unfold certs_required_signers_gen. rewrite set_of_in, !in_flat_map. split; intros [e [Hi Hk]]; exists e; split; auto;
+    rewrite in_app_iff in *; rewrite cert_table_keys in *; exact Hk.
+Qed.
+Lemma votes_signers_spec st k :
+  In k (votes_required_signers_gen true st) <->
+  In k (flat_map (fun e : vote_op => cred_key (v_cred (fst e)) ++ wit_signers (snd e)) st).
+Proof.
+  unfold votes_required_signers_gen. rewrite set_of_in.
+  rewrite (flat_map_ext _ (fun e : vote_op => cred_key (v_cred (fst e)) ++ wit_signers (snd e))); [reflexivity |].
+  intros [v [[n | p] |]]; reflexivity.
+Qed.
+
+(* the (repaired) union is, as a set, the required key set of the specification *)
+Lemma needed_vkeys_spec t : all_consistent t = true ->
+  forall k, In k (needed_vkeys_gen true true true true t) <-> In k (required_keys_list t).
+Proof.
+  unfold all_consistent. rewrite andb_true_iff. intros [HI HC] k.
+  unfold needed_vkeys_gen, required_keys_list.
+  rewrite set_of_in, !in_app_iff.
+  rewrite (inputs_signers_spec _ HI), (inputs_signers_spec _ HC), set_of_in, certs_signers_spec, votes_signers_spec.
+  unfold mint_required_signers_gen, wd_required_signers, props_required_signers_gen. rewrite !set_of_in.
+  unfold declared_signers. tauto.
+Qed.
+Lemma needed_vkeys_nodup fv fm fp fg t : NoDup (needed_vkeys_gen fv fm fp fg t).
+Proof. apply set_of_nodup. Qed.
+
+Lemma signers_union_gen t : all_consistent t = true ->
+  N.of_nat (length (needed_vkeys_gen true true true true t)) = N.of_nat (length (required_keys_spec t)).
+Proof.
+  intros H. f_equal. apply nodup_same_length.
+  - apply needed_vkeys_nodup.
+  - apply NoDup_nodup.
+  - intros k. rewrite (needed_vkeys_spec t H). unfold required_keys_spec. rewrite nodup_In. reflexivity.
+Qed.
